@@ -672,6 +672,8 @@ class C17(ApiCheck):
             if tier == "thorough" and i % 200 == 0 and not steps:
                 n = r.choice([(1 << 24) - 1, 1 << 24])
             steps.append(dict(acc=r.choice(apigen.ACCS), n=n, pattern=r.choice(["random", "zeros", "ones", "ramp"]), wseed=r.randrange(1 << 30)))
+            if n <= 300 and r.random() < 0.15:
+                steps[-1]["as_array"] = r.choice(["uint32", "int64"])  # the words as a NumPy array instead of a list
         return dict(kind="api", steps=steps)
 
     def case_layers(self, desc):
@@ -726,7 +728,17 @@ class C17(ApiCheck):
             out["evaluations"] += 1
             sig_ctx = dict(n_class="ge_2^24" if s_["n"] >= 1 << 24 else ("ge_2^16" if s_["n"] >= 1 << 16 else "small"))
             try:
-                payload = api.npu_create_driver_payload([int(w) for w in words] if s_["n"] < 200000 else words.tolist(), getattr(api.NpuAccelerator, s_["acc"]))
+                if s_.get("as_array"):
+                    # outside the documented parameter type (List[int]): a refusal is fine, a payload that is handed back must be right
+                    try:
+                        payload = api.npu_create_driver_payload(words.astype(s_["as_array"]), getattr(api.NpuAccelerator, s_["acc"]))
+                    except Exception:  # noqa
+                        out["counters"]["array_input_refused"] = out["counters"].get("array_input_refused", 0) + 1
+                        hist.append(s_["acc"])
+                        continue
+                    out["counters"]["array_input_accepted"] = out["counters"].get("array_input_accepted", 0) + 1
+                else:
+                    payload = api.npu_create_driver_payload([int(w) for w in words] if s_["n"] < 200000 else words.tolist(), getattr(api.NpuAccelerator, s_["acc"]))
             except VelaError as e:
                 if s_["n"] < 1 << 24:
                     out["viol"].append(dict(prop="C17", oracle="valid_stream_rejected", n=s_["n"], msg=str(e)[:200], sig=dict(oracle="valid_stream_rejected", **sig_ctx)))
